@@ -9,6 +9,8 @@
 //	R  render HISTORIES: 2..6 requests on one router, one render call each (Stringf fast and slow path,
 //	   String, HTML, Data, the JSON helpers), some served to a ResponseWriter whose k-th Write fails;
 //	   per request: error reported or status, content type, body
+//	P  requests served concurrently (after a sequential prelude with Format), each in a fresh process:
+//	   per call the set of answers over all rounds, per worker the set of Stringf bodies
 //	H  header setters: a script of Header / AppendHeader / Vary / Link / Redirect / Location /
 //	   ContentType / Download / MethodNotAllowed / SetCookie / Data / DataFromReader calls; after each call the
 //	   values of the header it touched
@@ -38,6 +40,7 @@ type caseT struct {
 	J *jsnCase `json:",omitempty"`
 	H *hdrCase `json:",omitempty"`
 	R *renCase `json:",omitempty"`
+	P *parCase `json:",omitempty"`
 }
 
 var rt = router.MustNew()
@@ -108,6 +111,8 @@ func emit(id string, k caseT, st *hx.Stats) string {
 		return emitHdr(id, k.H, st)
 	case k.R != nil:
 		return emitRen(id, k.R, st)
+	case k.P != nil:
+		return emitPar(id, k.P, st)
 	}
 	panic("empty case")
 }
@@ -135,14 +140,16 @@ func main() {
 				k = fixed[i]
 			} else {
 				id = fmt.Sprintf("c19-%d-%d", a.Seed, i-len(fixed))
-				switch x := r.Intn(24); {
-				case x < 9:
+				switch x := r.Intn(200); {
+				case x < 5:
+					k.P = genPar(r)
+				case x < 75:
 					k.N = genNeg(r)
-				case x < 13:
+				case x < 108:
 					k.F = genFmt(r)
-				case x < 17:
+				case x < 141:
 					k.J = genJsn(r)
-				case x < 20:
+				case x < 166:
 					k.H = genHdr(r)
 				default:
 					k.R = genRen(r)
